@@ -156,6 +156,11 @@ def make_op(o, prog, regs, numeric=None):
     kw = dict(o.get("kw", {}))
     if name == "GraphEmbed":
         return ops.GraphEmbed(np.array([[o["aval"]]]), **kw)
+    if name == "Ggate":
+        n_ = len(o["m"])
+        import random as _r
+        rr_ = _r.Random("G:%d" % o["useed"])
+        return ops.Ggate(seeded_symplectic(o["useed"], n_, rmax=0.15), np.array([rr_.uniform(-0.2, 0.2) for _ in range(2 * n_)]))
     if name in ("Interferometer", "GaussianTransform", "Gaussian"):
         n_ = len(o["m"])
         if name == "Interferometer":
